@@ -41,13 +41,15 @@ type vfPstore struct {
 	added []peer.ID
 }
 
-func (ps *vfPstore) AddAddrs(p peer.ID, _ []ma.Multiaddr, _ time.Duration) { ps.added = append(ps.added, p) }
-func (ps *vfPstore) PeerInfo(p peer.ID) peer.AddrInfo                      { return peer.AddrInfo{ID: p} }
+func (ps *vfPstore) AddAddrs(p peer.ID, _ []ma.Multiaddr, _ time.Duration) {
+	ps.added = append(ps.added, p)
+}
+func (ps *vfPstore) PeerInfo(p peer.ID) peer.AddrInfo { return peer.AddrInfo{ID: p} }
 
-func (h *vfHost) ID() peer.ID                          { return h.id }
-func (h *vfHost) Peerstore() peerstore.Peerstore       { return h.ps }
-func (h *vfHost) Addrs() []ma.Multiaddr                { return h.addrs }
-func (h *vfHost) ConnManager() connmgr.ConnManager     { return h.cm }
+func (h *vfHost) ID() peer.ID                                  { return h.id }
+func (h *vfHost) Peerstore() peerstore.Peerstore               { return h.ps }
+func (h *vfHost) Addrs() []ma.Multiaddr                        { return h.addrs }
+func (h *vfHost) ConnManager() connmgr.ConnManager             { return h.cm }
 func (h *vfHost) Connect(context.Context, peer.AddrInfo) error { return nil }
 
 // vfModelIPGroupKey: IPv4 /16 grouping (the harness only uses IPv4 addresses).
@@ -245,7 +247,59 @@ func VfFullRTBulk() {
 	_ = recpb.Record{}
 }
 
+// VfFullRTClosestPaged (C16-H1b): larger tables, so that the walk over the
+// nearest keys needs several batches; one fixed placement of the identifiers,
+// arbitrary group membership. Oracle: walk all peers by ascending distance and
+// accept a peer iff its group still has room, until K are accepted.
+func VfFullRTClosestPaged() {
+	N := vfParam("N")
+	vfHashBits(vfParam("W"))
+	vfHashFixed()
+	K := 1 + vfChoose("K", vfParam("MAXK"))
+	limit := 1 + vfChoose("limit", 2)
+	d, _, _ := vfNewFullRT(K, limit)
+	ids := make([]peer.ID, N)
+	group := map[peer.ID]int{}
+	for i := range ids {
+		ids[i] = peer.ID(vfHashInput("p"+strconv.Itoa(i), nil, 8))
+		group[ids[i]] = vfChoose("group", 2)
+		d.vfCrawled(ids[i], []ma.Multiaddr{vfGroupAddr(group[ids[i]], i)})
+	}
+	key := string(vfHashInput("key", nil, 8))
+	got, err := d.GetClosestPeers(context.Background(), key)
+	vfAssert(err == nil, "fullrt/closest-no-error")
+	sorted := append([]peer.ID{}, ids...)
+	for i := range sorted {
+		for j := i + 1; j < len(sorted); j++ {
+			if vfDistLess(key, sorted[j], sorted[i]) {
+				sorted[i], sorted[j] = sorted[j], sorted[i]
+			}
+		}
+	}
+	var want []peer.ID
+	count := map[int]int{}
+	for _, p := range sorted {
+		if len(want) == K {
+			break
+		}
+		if count[group[p]] >= limit {
+			continue
+		}
+		count[group[p]]++
+		want = append(want, p)
+	}
+	ok := len(got) == len(want)
+	for i := range want {
+		if ok && got[i] != want[i] {
+			ok = false
+		}
+	}
+	vfAssert(ok, "fullrt/nearest-peers-with-room-in-their-ip-group-in-ascending-order")
+	vfReach("fullrt/closest-paged-end")
+}
+
 var _ = vfRegister("VfFullRTClosest", VfFullRTClosest)
+var _ = vfRegister("VfFullRTClosestPaged", VfFullRTClosestPaged)
 var _ = vfRegister("VfFullRTBulk", VfFullRTBulk)
 
 func vfMultihashes(ss []string) []mhpkg.Multihash {
